@@ -123,4 +123,16 @@ PROPS = {
                  'distinct_nontrivial = distinct (operation, result, shape) signatures.'),
         'assumptions': ['the header page accesses (two AtomicUsize stores/loads) are run, not modelled beyond nvmHeaderOk'],
     },
+    'C12': {
+        'oracles': ['C12', 'C02'],
+        'geoms': {'quick': ['default', 'th1'], 'thorough': ALLG},
+        'runs': {'quick': [seq('lower', 40, 150)], 'thorough': [seq('lower', 1500, 300), conc(20, 100, 50, 0, kind=2)]},
+        'rule': ('crafted lower metadata satisfying the invariant (per huge frame: allocated whole / empty / full / aligned '
+                 'sub-blocks of a random order each empty, full, single-bit or random; partial last huge frames and trees), then '
+                 'Lower::get with every hint row and order 0..TREE_ORDER, directed get_at, frees of held blocks, is_free; results '
+                 'and a digest of the metadata compared with the Lean model after every call; oracle: a failing search implies no '
+                 'aligned free block of the order in the tree, a success marks exactly the block. '
+                 'distinct_nontrivial = distinct (operation, result, order) signatures.'),
+        'assumptions': [],
+    },
 }
